@@ -373,6 +373,9 @@ func (g *jsGen) objectLit() string {
 		switch r.Intn(10) {
 		case 0:
 			v := g.someVar(false)
+			if r.Chance(1, 4) {
+				v = r.Pick([]string{"undefined", "Infinity", "NaN"}) // shorthand for a global the minifier spells differently
+			}
 			parts = append(parts, v) // shorthand
 		case 1:
 			parts = append(parts, "..."+r.Pick([]string{"{a:1}", "{}", "null", g.someVar(false)}))
@@ -453,7 +456,23 @@ func (g *jsGen) expr(d int) string {
 		return "(" + op + g.paren(g.expr(d+1)) + ")"
 	case 14, 15:
 		c, a, b := g.expr(d+1), g.expr(d+1), g.expr(d+1)
-		switch r.Intn(17) {
+		switch r.Intn(19) {
+		case 17:
+			// nested conditional whose inner and outer fallback are the same: the outer test is a || or ?? group
+			// (neither the test nor the inner conditional is parenthesised: only bare operators are rewritten; the
+			// fallback is a variable)
+			y := g.someVar(false)
+			op := r.Pick([]string{"||", "??", "||"})
+			if r.Bool() {
+				// the telling valuation: left operand of the || true, inner test false
+				return "(GN" + op + g.someVar(false) + "?GL.length<0?" + g.paren(b) + ":" + y + ":" + y + ")"
+			}
+			return "(" + g.someVar(false) + op + g.someVar(false) + "?" + g.someVar(false) + "?" + g.paren(b) + ":" + y + ":" + y + ")"
+		case 18:
+			// a test the minifier rewrites into a comparison (isNaN(x) -> x!=x), itself an operand of an equality operator
+			// (guard js-isnan-self-compare, open finding: the rewrite is only right for numbers, so the argument is
+			// the number-valued global)
+			return "(" + g.paren(a) + r.Pick([]string{"===", "!==", "==", "!="}) + "isNaN(GN))"
 		case 14:
 			// both branches call the same function, one with a spread argument: not mergeable into f(c?x:y)
 			v := g.someVar(false)
@@ -550,7 +569,7 @@ func (g *jsGen) expr(d int) string {
 	case 28:
 		return "(" + g.arrowFunc(d) + ")(" + g.args() + ")"
 	case 29:
-		return r.Pick([]string{"(new Object)", "new Object()", "new Array(3)", "new Error(\"m\")", "new (class{constructor(){h(" + g.nextSite() + ")}})()", "new Date(0)", "new Map([[1,2]])", "String(5n*3n)", "typeof BigInt(7)", "String(0x1234567890abcdefn)", "typeof 0b1111111111111111111111111111111111111111111111111111111111111111111n", "String(0o7777777777777777777777777n)", "String(0xFFn+1_0n)", "0x1234567890abc"}) // BigInt values never reach arithmetic: guard js-bigint-mix-dropped
+		return r.Pick([]string{"(new Object)", "new Object()", "new Array(3)", "new Error(\"m\")", "new (class{constructor(){h(" + g.nextSite() + ")}})()", "new Date(0)", "new Map([[1,2]])", "String(5n*3n)", "typeof BigInt(7)", "String(0x1234567890abcdefn)", "typeof 0b1111111111111111111111111111111111111111111111111111111111111111111n", "String(0o7777777777777777777777777n)", "String(0xFFn+1_0n)", "0x1234567890abc", "String(0x3E8n)", "String(0xF4240n)", "typeof 0x7D0n", "String(0b1111101000n)", "String(0o1750n)", "String(1000n)", "String(0x2710n*2n)"}) // BigInt values never reach arithmetic: guard js-bigint-mix-dropped
 	case 30:
 		return g.str() + "+" + g.str() + r.Pick([]string{"", "+(" + g.expr(d+1) + ")"})
 	case 31:
@@ -1268,7 +1287,7 @@ func genJSProgram(r *core.Rand) (src string, strict bool) {
 	}
 	// GL is read (GL["length"]) but never assigned by generated code: a function value cannot reach it, so
 	// finding js-function-length-after-param-removal (unused parameters are dropped, f.length changes) stays out.
-	sb.WriteString("var G0=1,G1=\"s\",G2=[1,2],GL=[1,2];")
+	sb.WriteString("var G0=1,G1=\"s\",G2=[1,2],GL=[1,2],GN=7;") // GL and GN are never assigned
 	n := 3 + r.Intn(10)
 	sep := r.Pick([]string{"", "\n", "\n"})
 	for i := 0; i < n; i++ {
